@@ -180,6 +180,11 @@ def v_vmf(case, R):
     kappa = 10 ** rng.uniform(-6, math.log10(500), size=lead)
     if case['rs'][-1] % 5 == 0:
         kappa = rng.integers(1, 500, size=lead)            # integer-valued concentrations in an integer array are valid parameters too
+    single = case['rs'][-1] % 7 == 3
+    if single:
+        # parameters stored in single precision (a model fitted to float32 embeddings): valid parameters, evaluated in their own precision
+        kappa = np.asarray(10 ** rng.uniform(0, math.log10(500), size=lead), dtype=np.float32)
+        mean = mean.astype(np.float32)
     x = rng.standard_normal((*lead, N, D)) * 10 ** rng.uniform(-3, 3, size=(*lead, N, 1))   # any positive length
     # include mode / antipode / orthogonal directions
     if N >= 3:
@@ -199,10 +204,11 @@ def v_vmf(case, R):
             kk = float(np.asarray(kappa)[idx])
             ref[idx] = kk * np.sign(x[idx][..., 0]) * mean[idx][0] - (kk + np.log1p(np.exp(-2 * kk)))
             continue
-        ref[idx] = np.atleast_1d(oracles.vmf_log_pdf(oracles.unit(x[idx]), mean[idx], np.asarray(kappa)[idx]))
-    if _cmp(R, 'C07.vmf', got, ref, 1e-9 * (1 + np.abs(ref)), 'vmf', case):
+        ref[idx] = np.atleast_1d(oracles.vmf_log_pdf(oracles.unit(x[idx]), oracles.unit(mean[idx].astype(np.float64)), np.asarray(kappa, dtype=np.float64)[idx]))
+    # single-precision parameters: kappa * cos and the normaliser carry a relative error of float32 eps at magnitude kappa
+    if _cmp(R, 'C07.vmf', got, ref, (1e-9 if not single else 2e-6 * (1 + float(np.max(kappa)))) * (1 + np.abs(ref)), 'vmf', case, **({'dtype': 'float32'} if single else {})):
         _sig(R, case)
-    if D == 3:
+    if D == 3 and not single:
         k = np.asarray(kappa)
         closed = np.log(k / (4 * np.pi * np.sinh(np.minimum(k, 700)))) if np.all(k < 700) else None
         if closed is not None:
